@@ -32,6 +32,13 @@ class StructuralError(Exception):
     """A task failed for every input (missing / duplicated column, bad key): data-independent failure."""
 
 
+class MissingLabel(StructuralError, KeyError):
+    """a missing column / label: pandas raises KeyError, which real code may catch"""
+
+    def __str__(self):
+        return self.args[0] if self.args else ""
+
+
 # ---------------------------------------------------------------------------------------------- term helpers
 
 def is_t(x):
@@ -310,17 +317,27 @@ class Col:
         return not all(is_f(n) for n in self.nulls)
 
 
+NAN_LABEL = z3.IntVal(2 ** 40)  # the missing index label; source values are assumed smaller in magnitude where it is used
+
+
 class Idx:
     """index labels of the slots. `defined=False`: labels are whatever pandas generated (RangeIndex after
     reset_index / merge / ignore_index) and are not part of any comparison."""
 
-    __slots__ = ("vals", "name", "defined", "labels")
+    __slots__ = ("vals", "name", "defined", "labels", "nan")
 
-    def __init__(self, vals, name=None, defined=True, labels=False):
-        self.vals, self.name, self.defined, self.labels = list(vals), name, defined, labels
+    def __init__(self, vals, name=None, defined=True, labels=False, nan=False):
+        # nan=True: a label equal to NAN_LABEL stands for a missing label (the NaN group of groupby(dropna=False))
+        self.vals, self.name, self.defined, self.labels, self.nan = list(vals), name, defined, labels, nan
 
     def take(self, idxs):
-        return Idx([self.vals[i] for i in idxs], self.name, self.defined, self.labels)
+        return Idx([self.vals[i] for i in idxs], self.name, self.defined, self.labels, self.nan)
+
+    def column(self):
+        """the labels as a column (reset_index / groupby(level=))"""
+        if self.nan:
+            return Col("f", [I(v) for v in self.vals], [z3.simplify(I(v) == NAN_LABEL) for v in self.vals])
+        return Col("i", [I(v) for v in self.vals])
 
     @staticmethod
     def undefined(n, name=None):
@@ -430,7 +447,11 @@ def decide(cond):
 # ---------------------------------------------------------------------------------------------- base class
 
 class SymBase:
-    pass
+    def __array_ufunc__(self, ufunc, method, *inputs, **kwargs):
+        # np.sqrt(frame) (groupby std); every other ufunc defers to the Python operators
+        if method == "__call__" and ufunc.__name__ == "sqrt" and len(inputs) == 1 and not kwargs and hasattr(self, "sqrt"):
+            return self.sqrt()
+        return NotImplemented
 
 
 class SymScalar(SymBase):
